@@ -140,7 +140,7 @@ V("C09", "benign_limiter_temp", "silent", (DISC, "        self.zi[:] = np.logica
 # ---------------- C05
 GENBASE = "andes/models/synchronous/genbase.py"
 V("C05", "syngen_keeps_static_on", "violation", (GENBASE, "        self.system.groups['StaticGen'].set(src='u', idx=mask_idx, attr='v', value=0)", "        self.system.groups['StaticGen'].set(src='u', idx=mask_idx, attr='v', value=1)"), rule="C05.static-dynamic")
-V("C05", "zip_keeps_pq_on", "violation", ("andes/models/dynload/zip.py", "        self.system.groups['StaticLoad'].set(src='u', idx=self.pq.v, attr='v', value=0)", "        pass"), rule="C05.static-dynamic")
+V("C05", "zip_keeps_pq_on", "violation", ("andes/models/dynload/zip.py", "        self.system.groups['StaticLoad'].set(src='u', idx=mask_idx, attr='v', value=0)", "        pass"), rule="C05.static-dynamic")
 V("C05", "init_deps_ignored", "violation", (SYMP, "        for name, expr in self.v_str_syms.items():\n            _store_deps(name, expr, self.vars_dict, deps)", "        for name, expr in self.v_str_syms.items():\n            _store_deps(name, expr, {}, deps)"), rule="C05.init-order")
 V("C05", "init_always_accumulates", "violation", (MODEL, "                            instance.v[:] = self.calls.ia[name](*self.ia_args[name])\n\n                        else:", "                            instance.v[:] += self.calls.ia[name](*self.ia_args[name])\n\n                        else:"), rule="C05.handover")
 V("C05", "pf_solution_after_extension", "violation", (TDS, "        system.dae.y[:len(system.PFlow.y_sol)] = system.PFlow.y_sol\n        system.dae.t -= system.dae.t   # set `dae.t` to zero\n", "        system.dae.t -= system.dae.t   # set `dae.t` to zero\n"), (TDS, "        system.set_dae_names(models=system.exist.tds)\n", "        system.set_dae_names(models=system.exist.tds)\n        system.dae.y[:len(system.PFlow.y_sol)] = system.PFlow.y_sol\n"), rule="C05.handover")
